@@ -1083,8 +1083,34 @@ fn parse_statement(text: &str) -> IResult<&str, Option<RuleSet>> {
 }
 
 pub(crate) fn parse_stylesheet(text: &str) -> IResult<&str, Vec<RuleSet>> {
-    let (rest, items) = many0(parse_statement)(text)?;
-    Ok((rest, items.into_iter().flatten().collect()))
+    let mut rest = text;
+    let mut items = Vec::new();
+    loop {
+        match parse_statement(rest) {
+            Ok((remain, item)) if remain.len() < rest.len() => {
+                items.extend(item);
+                rest = remain;
+            }
+            _ => {
+                // Error recovery: skip a rule we can't parse (up to the end of
+                // its block) and carry on with the rest of the sheet.
+                let (junk, _) = skip_optional_whitespace(rest)?;
+                if junk.is_empty() {
+                    rest = junk;
+                    break;
+                }
+                match skip_to_end_of_statement(junk) {
+                    Ok((remain, ())) if remain.len() < junk.len() => rest = remain,
+                    _ => match parse_token(junk) {
+                        // No progress (e.g. a stray closing bracket): drop one token.
+                        Ok((remain, _)) if remain.len() < junk.len() => rest = remain,
+                        _ => break,
+                    },
+                }
+            }
+        }
+    }
+    Ok((rest, items))
 }
 
 pub(crate) fn parse_style_attribute(text: &str) -> crate::Result<Vec<StyleDecl>> {
